@@ -137,6 +137,77 @@ pub fn sweep(run: &Run, tier: Tier) -> Totals {
                 break;
             }
         }
+        // pairs of off-ray squares as noise: with every ray subset (thorough) or with the empty,
+        // the full and every single-square ray subset (quick)
+        let off: Vec<u8> = (0..64u8).filter(|q| outside & (1u64 << q) != 0 && *q != s).collect();
+        let ray_sq: Vec<u8> = (0..64u8).filter(|q| mask & (1u64 << q) != 0).collect();
+        let mut subs: Vec<u64> = vec![0, mask];
+        for q in ray_sq.iter() {
+            subs.push(1u64 << q);
+            subs.push(mask & !(1u64 << q));
+        }
+        let check = |occ: u64, want: u64, n: &mut u64, nb: &mut u64| -> bool {
+            let mut c = [0u8; 10];
+            c[0] = !is_rook as u8;
+            c[1] = s;
+            c[2..10].copy_from_slice(&occ.to_le_bytes());
+            guard::crumb_raw(crumb, &c);
+            let got = guard::lib(|| if is_rook { chess::get_rook_moves(lsq(s), BitBoard(occ)).0 } else { chess::get_bishop_moves(lsq(s), BitBoard(occ)).0 });
+            *n += 1;
+            if got != Ok(want) {
+                run.report(Violation::new(
+                    "C15",
+                    if is_rook { "rook-magic" } else { "bishop-magic" },
+                    "magic lookup differs from ray walking (two off-ray squares occupied)",
+                    format!("{} on {} with occupancy {:#018x}: lookup {:?}, ray walking {:#018x}", if is_rook { "rook" } else { "bishop" }, sq_name(s), occ, got.map(|g| format!("{g:#018x}")), want),
+                    json!({"kind": "slider", "piece": if is_rook {"rook"} else {"bishop"}, "square": sq_name(s), "occupancy": format!("{occ:#018x}"), "build": build_name()}),
+                ));
+                return false;
+            }
+            #[cfg(target_feature = "bmi2")]
+            {
+                let gb = guard::lib(|| if is_rook { chess::get_rook_moves_bmi(lsq(s), BitBoard(occ)).0 } else { chess::get_bishop_moves_bmi(lsq(s), BitBoard(occ)).0 });
+                *nb += 1;
+                if gb != Ok(want) {
+                    run.report(Violation::new(
+                        "C15",
+                        if is_rook { "rook-bmi" } else { "bishop-bmi" },
+                        "BMI2 lookup differs from ray walking (two off-ray squares occupied)",
+                        format!("{} on {} with occupancy {:#018x}: pext/pdep lookup {:?}, ray walking {:#018x}", if is_rook { "rook" } else { "bishop" }, sq_name(s), occ, gb.map(|g| format!("{g:#018x}")), want),
+                        json!({"kind": "slider", "piece": if is_rook {"rook"} else {"bishop"}, "square": sq_name(s), "occupancy": format!("{occ:#018x}"), "build": build_name()}),
+                    ));
+                    return false;
+                }
+            }
+            let _ = nb;
+            true
+        };
+        'pairs: for (i, a) in off.iter().enumerate() {
+            for b in off.iter().skip(i + 1) {
+                let noise = (1u64 << a) | (1u64 << b);
+                // with and without the slider's own square
+                for own in [0u64, 1u64 << s] {
+                    if tier == Tier::Thorough && own == 0 {
+                        let mut sub = 0u64;
+                        loop {
+                            if !check(sub | noise, walk(s, sub, dirs), &mut n, &mut nb) {
+                                break 'pairs;
+                            }
+                            sub = sub.wrapping_sub(mask) & mask;
+                            if sub == 0 {
+                                break;
+                            }
+                        }
+                    } else {
+                        for &sub in subs.iter() {
+                            if !check(sub | noise | own, walk(s, sub, dirs), &mut n, &mut nb) {
+                                break 'pairs;
+                            }
+                        }
+                    }
+                }
+            }
+        }
         if is_rook { &rook } else { &bishop }.fetch_add(n, Ordering::Relaxed);
         bmi.fetch_add(nb, Ordering::Relaxed);
     });
@@ -151,7 +222,7 @@ pub fn build_name() -> &'static str {
     }
 }
 
-pub const RULE: &str = "for each of the 64 squares and each of rook / bishop: EVERY subset of the squares on its rays (edge squares included; 2^14 per rook square, up to 2^13 per bishop square) combined with a catalogue of occupancies of the non-ray squares (none, all, two checkerboards, own square, every single non-ray square; thorough: also adjacent pairs); lookup must equal walking each ray up to and including the first occupied square. Run in the default build (magic multiplication) and, as a child process, in the +bmi2 build where the pext/pdep variants are judged as well on every input (so bmi == magic == ray walk). distinct_nontrivial = distinct (square, piece, ray subset) cases";
+pub const RULE: &str = "for each of the 64 squares and each of rook / bishop: EVERY subset of the squares on its rays (edge squares included; 2^14 per rook square, up to 2^13 per bishop square) combined with a catalogue of occupancies of the non-ray squares (none, all, two checkerboards, own square, every single non-ray square; thorough: also adjacent pairs); additionally EVERY PAIR of non-ray squares (with and without the slider's own square) combined with the empty, the full, every single-square and every all-but-one ray subset (quick) or with every ray subset (thorough); lookup must equal walking each ray up to and including the first occupied square. Run in the default build (magic multiplication) and, as a child process, in the +bmi2 build where the pext/pdep variants are judged as well on every input (so bmi == magic == ray walk). distinct_nontrivial = distinct (square, piece, ray subset) cases";
 
 /// Worker mode in the +bmi2 binary: run the sweep, print one JSON line.
 pub fn worker(tier: Tier) -> i32 {
